@@ -12,6 +12,9 @@ streams (driver request = "C18 <stream> <line>")
              and the Spec oracle (one line per path, pages in document order, siblings by collation key,
              groups by initial, columns a partition in order).
   doc18    : the same entries scattered over a generated document with \\printindex, parsed by the real interpreter.
+  html18   : doc18 documents rendered with the real HTML5 renderer; the generated index is read back from the HTML
+             (<li> nesting, page references, headings, columns) and compared with Model.renderIndex/htmlLines (the
+             template walk) and with the index tree of the same document.
   idxcols  : IndexUtils.splitColumns on weight lists x cols (0..6) vs Model.splitColumns.
   idx-asis : only used to exhibit D13 on request (model of the pinned code before the repair).
 """
@@ -26,17 +29,19 @@ LEVEL_TEXT = ('Lean 4 theorems over a line-by-line model of index.invoke (the ! 
               'and every column count: parse_entry_paths, entry_order_is_strict_total_on_paths, sort_perm_sorted_stable, '
               'level_order_refines_collation, merge_every_entry_once_under_path, lines_strictly_increasing, one_line_per_path, '
               'siblings_in_collation_order, pages_per_path_in_document_order, one_page_reference_per_occurrence, pages_increasing, '
-              'groups_partition_by_initial, heading_cases, columns_partition_in_order, index_groups_and_columns; kernel-checked witnesses '
-              'asIs_counterexample (D13, repaired) and format_special_counterexample (known finding). The collator (pyuca or the str.lower '
+              'groups_partition_by_initial, heading_cases, columns_partition_in_order, index_groups_and_columns, '
+              'generated_index_lists_every_line, generated_index_is_the_index_tree (walk of the HTML5 index template); kernel-checked witnesses '
+              'asIs_counterexample (D13, repaired), asIs_groups_counterexample (duplicate headings, repaired) and format_special_counterexample (known finding). The collator (pyuca or the str.lower '
               'fallback), unidecode and the expansion of key tokens into nodes are parameters of the model supplied from the live '
               'installation; the model is tied to the code by differential execution at component level (real index.invoke, IndexEntry, '
-              'printindex.digest/groups/splitColumns objects) and at document level (\\printindex documents).')
+              'printindex.digest/groups/splitColumns objects) and at document level (\\printindex documents, also rendered to HTML5 and read back).')
 LEVEL_NOTE = ('Trusted: Lean kernel (axioms propext, Classical.choice, Quot.sound only), the correspondence harness and its generators, '
               'CPython. Parameters, not verified: the collation key function (pyuca / str.lower), unidecode, tex.expandTokens/textContent/source '
               'of key tokens (node equality is taken as equality of (textContent, source)); the DOM tree is modelled as its preorder list of '
               'Index nodes with full key paths.')
 TECHNIQUE = 'Lean 4 proof (fold invariants, strict-total-order lifting through Python list comparison, stable insertion sort) + differential correspondence'
-TRUSTED = ['collator (pyuca.Collator / str.lower fallback) and unidecode are parameters: their values on the generated keys are sent to the model',
+TRUSTED = ['collator (pyuca.Collator / str.lower fallback) and the unidecode *library* are parameters: their values on the generated keys are sent to the model (the name `unidecode` inside Index.py is code under test); the heading oracle additionally uses unicodedata NFKD base letters, independent of unidecode',
+           'Jinja2 and the HTML5 renderer machinery: the index template walk is modelled (renderIndex/htmlLines) and tied by the html18 stream; key markup/mathematics is compared as an opaque marker',
            'expansion of key tokens (tex.expandTokens, textContent, source) is measured on the live code and sent to the model',
            'sorted() is modelled as a stable insertion sort (equal to any stable sort because the comparison is proved a strict total order on keys)']
 ASSUMPTIONS = ['key nodes are equal (==) exactly when their (textContent, source) are equal - holds for the generated keys, checked by correspondence',
@@ -119,12 +124,36 @@ def dots(s):
     return '.'.join(str(ord(c)) for c in s)
 
 
+def _translit():
+    """the transliteration *library* itself (the parameter of the model), not the name `unidecode` inside
+    plasTeX/Base/LaTeX/Index.py: a wrapper or fallback defined there is code under test"""
+    if 'ud' not in _env:
+        try:
+            import unidecode as U
+            _env['ud'] = U.unidecode
+        except ImportError:
+            _env['ud'] = _mod().unidecode
+    return _env['ud']
+
+
 def ini_word(sk):
-    M = _mod()
     try:
-        return sw(M.unidecode(sk[0]).upper())
+        return sw(_translit()(sk[0]).upper())
     except IndexError:
         return 'x'
+
+
+def base_letter(sk):
+    """the initial letter the property speaks about, independent of unidecode: the base character of the
+    canonical decomposition of the first character when that is an ASCII letter (É -> E, ñ -> N), else None"""
+    import unicodedata
+    if not sk:
+        return None
+    d = unicodedata.normalize('NFKD', sk[0])
+    b = d[:1].upper()
+    if len(b) == 1 and 'A' <= b <= 'Z' and all(unicodedata.combining(c) for c in d[1:]):
+        return b
+    return None
 
 
 _measured = {}
@@ -362,6 +391,15 @@ def generate(ctx):
         es = gen_entries(rng, n)
         cols = rng.randint(1, 4)
         yield Case('doc18', entries_line(es, cols), {'es': es, 'cols': cols, 'body': gen_doc_body(rng, es)})
+    for _ in range(max(20, n_doc // 3)):
+        n = rng.choice([2, 3, 4, 6, 8, 12, 16])
+        es = gen_entries(rng, n)
+        if rng.random() < 0.5:                                 # force a third level and an accented initial
+            es.append(([rng.choice(POOL), rng.choice(POOL), rng.choice(POOL)], rng.choice(FORMATS)))
+            es.append(([rng.choice(['éclair', 'École', 'Über', 'ñandú', 'Ä', 'ça', 'Östersund@Oestersund'])], ''))
+            rng.shuffle(es)
+        cols = rng.randint(1, 4)
+        yield Case('html18', entries_line(es, cols), {'es': es, 'cols': cols, 'body': gen_doc_body(rng, es)})
     for _ in range(n_cols):
         cols = rng.choice([0, 1, 1, 2, 2, 3, 3, 4, 4, 5, 6])
         k = rng.randint(0, 12)
@@ -376,6 +414,9 @@ D14 = [(['q'], '|('), (['r'], ''), (['q'], '|)')]
 
 def corpus():
     cs = []
+    H3 = [(['apple', 'banana', 'zebra'], ''), (['École'], ''), (['apple', 'banana', 'zebra'], '|textbf'), (['ñandú', 'sub'], '|see{other}'), (['apple', 'banana'], ''),
+          (['eclair'], ''), (['zebra'], ''), (['éclair'], '')]
+    cs.append(Case('html18', entries_line(H3, 2), {'es': H3, 'cols': 2, 'body': ' '.join('w\\index{%s%s}' % ('!'.join(l), f) for l, f in H3)}, 'corpus'))
     for es in (D13, D13_SUB, D14, [(['apple', 'x"|y'], '|see{other}'), (['Apple'], ''), (['apple'], '|textbf'), (['apple', 'x"|y'], '')]):
         cs.append(Case('idx', entries_line(es, 2), {'es': es, 'cols': 2}, 'corpus'))
         cs.append(Case('doc18', entries_line(es, 2), {'es': es, 'cols': 2, 'body': ' '.join('w\\index{%s%s}' % ('!'.join(l), f) for l, f in es)}, 'corpus'))
@@ -391,10 +432,10 @@ def corpus():
 
 def nontrivial(o):
     st = o.case.stream
-    if st in ('idx', 'doc18'):
+    if st in ('idx', 'doc18', 'html18'):
         if not o.impl.startswith('L: '):
             return False
-        lines = o.impl.split(' G ')[0].split()[1:]
+        lines = o.impl.split(' ## ')[0].split(' G ')[0].split()[1:]
         return len(lines) >= 2 and any(l.startswith('2/') or l.startswith('3/') or '.' in l.split('/')[3] for l in lines)
     if st in ('idxspec', 'idxparse'):
         return not o.impl.startswith('err') and any(w in o.case.line.split() for w in ('!', '@', '|', 'c33', 'c64', 'c124', 'c34')) \
@@ -408,7 +449,7 @@ def nontrivial(o):
 
 def canon_exc(e):
     n = type(e).__name__
-    return 'err:' + n if n in ('IndexError', 'ZeroDivisionError', 'AttributeError') else 'err:other:' + n
+    return 'err:' + n if n in ('IndexError', 'ZeroDivisionError', 'AttributeError', 'KeyError') else 'err:other:' + n
 
 
 def impl_parse(s, table):
@@ -501,8 +542,10 @@ def impl_idx(es, cols):
     return observe_index(pi, order)
 
 
-def impl_doc(es, cols, body):
+def impl_doc(es, cols, body, want_doc=False):
     doc, tex = fresh(cols)
+    if want_doc:
+        doc.config['files']['split-level'] = -100
     tex.input('\\documentclass{article}\\usepackage{makeidx}\\makeindex\\begin{document}\n' + body + '\n\\printindex\n\\end{document}\n')
     try:
         tex.parse()
@@ -515,7 +558,139 @@ def impl_doc(es, cols, body):
     pis = doc.getElementsByTagName('printindex')
     if len(pis) != 1:
         return 'printindex:%d' % len(pis)
+    if want_doc:
+        return observe_index(pis[0], order), doc
     return observe_index(pis[0], order)
+
+
+class _IndexHTML(__import__('html.parser').parser.HTMLParser):
+    """read the generated index back: <li> nesting -> lines (depth, key text, number of page references),
+    <section class=theindex>/<h2>/<ul class=index-column> -> headings and columns of top-level items"""
+    def __init__(self):
+        super().__init__(convert_charrefs=True)
+        self.lines, self.stack, self.groups = [], [], []
+        self.in_sec = self.in_h2 = False
+        self.key_depth = 0          # >0: inside <span class="index-item"> (nesting of spans)
+        self.ntop = 0
+
+    def handle_starttag(self, tag, attrs):
+        cls = dict(attrs).get('class') or ''
+        if tag == 'section' and 'theindex' in cls.split():
+            self.in_sec = True
+            self.groups.append(['', []])
+            return
+        if not self.in_sec:
+            return
+        if self.key_depth:
+            self.stack[-1][3] = True
+            if tag == 'span':
+                self.key_depth += 1
+            return
+        if tag == 'h2':
+            self.in_h2 = True
+        elif tag == 'ul' and cls == 'index-column':
+            self.groups[-1][1].append([])
+        elif tag == 'li':
+            rec = [len(self.stack) + 1, '', 0, False]
+            if not self.stack:
+                if self.groups[-1][1]:
+                    self.groups[-1][1][-1].append(self.ntop)
+                self.ntop += 1
+            self.stack.append(rec)
+            self.lines.append(rec)
+        elif tag == 'span' and cls == 'index-item' and self.stack:
+            self.key_depth = 1
+        elif tag in ('a', 'span') and cls.startswith('index-page') and self.stack:
+            self.stack[-1][2] += 1
+
+    def handle_endtag(self, tag):
+        if not self.in_sec:
+            return
+        if self.key_depth:
+            if tag == 'span':
+                self.key_depth -= 1
+            return
+        if tag == 'section':
+            self.in_sec = False
+        elif tag == 'h2':
+            self.in_h2 = False
+        elif tag == 'li' and self.stack:
+            self.stack.pop()
+
+    def handle_data(self, data):
+        if self.in_sec and self.key_depth and self.stack:
+            self.stack[-1][1] += data
+        elif self.in_sec and self.in_h2:
+            self.groups[-1][0] += data
+
+
+def observe_html(doc):
+    """render with the HTML5 renderer into a scratch directory and read the index back"""
+    import tempfile, shutil, glob
+    from plasTeX.Renderers.HTML5 import Renderer
+    work = tempfile.mkdtemp(prefix='c18html')
+    cwd = os.getcwd()
+    err = os.dup(2)
+    devnull = os.open(os.devnull, os.O_WRONLY)
+    try:
+        os.chdir(work)
+        os.dup2(devnull, 2)                # the imager probes (gs, pdflatex) complain on stderr
+        try:
+            Renderer().render(doc)
+        except Exception as e:
+            return canon_exc(e)
+        html = ''.join(open(f, encoding='utf-8').read() for f in sorted(glob.glob(os.path.join(work, '*.html'))))
+    finally:
+        os.dup2(err, 2)
+        os.close(err)
+        os.close(devnull)
+        os.chdir(cwd)
+        shutil.rmtree(work, ignore_errors=True)
+    p = _IndexHTML()
+    p.feed(html)
+    ls = []
+    for d, text, n, marked in p.lines:
+        t = '*' if (marked or '\\(' in text or '$' in text) else dots(text.strip())
+        ls.append('%d/%s/%d' % (d, t, n))
+    gs = ['%s/%s' % (dots(t.strip()), '|'.join(str(len(c)) for c in cs)) for t, cs in p.groups]
+    return 'H: %s G %s' % (' '.join(ls), ' '.join(gs))
+
+
+def impl_html(es, cols, body):
+    r = impl_doc(es, cols, body, want_doc=True)
+    if not isinstance(r, tuple):
+        return r
+    dom, doc = r
+    return dom + ' ## ' + observe_html(doc)
+
+
+def project_dom(dom, line):
+    """what the generated index must show for a DOM observation `L: … G …` (same projection as the driver's
+    htmlStr): the sub-trees of the top-level entries in the order of the groups and their columns"""
+    ws = line.split()
+    txt = {}
+    for i, w in enumerate(ws):
+        if w == 'L':
+            txt[(ws[i + 3][1:], ws[i + 1][1:])] = ws[i + 2][1:]
+    L, G = dom[3:].split(' G ', 1) if ' G ' in dom else (dom[3:].rstrip(' G'), '')
+    blocks = []
+    for w in L.split():
+        d, src, sk, pages = w.split('/')
+        marked = any(c in ('123', '36') for c in src.split('.'))
+        item = '%s/%s/%d' % (d, '*' if marked else txt.get((src, sk), '?'), len(pages.split('.')) if pages else 0)
+        if d == '1':
+            blocks.append([item])
+        elif blocks:
+            blocks[-1].append(item)
+    gs, ls = [], []
+    for gw in G.split():
+        title, label, colsw = gw.split('/')
+        gs.append('%s/%s' % (title, '|'.join(str(len(c.split(',')) if c else 0) for c in colsw.split('|'))))
+        for c in colsw.split('|'):
+            for x in (c.split(',') if c else []):
+                if int(x) < len(blocks):
+                    ls.extend(blocks[int(x)])
+    return 'H: %s G %s' % (' '.join(ls), ' '.join(gs))
 
 
 class _Item:
@@ -537,6 +712,8 @@ def impl(case, aux):
         return impl_idx(case.meta['es'], case.meta['cols'])
     if st == 'doc18':
         return impl_doc(case.meta['es'], case.meta['cols'], case.meta['body'])
+    if st == 'html18':
+        return impl_html(case.meta['es'], case.meta['cols'], case.meta['body'])
     if st == 'idxcols':
         ws = [int(x) for x in case.line.split()]
         cols, ws = ws[0], ws[1:]
@@ -570,9 +747,9 @@ def parse_line_tables(line):
     return int(ws[0]), coll, ini
 
 
-def oracle_idx(o):
+def oracle_idx(o, impl=None):
     """the property statement on the observed index; returns '' or a complaint"""
-    impl = o.impl
+    impl = o.impl if impl is None else impl
     if not impl.startswith('L: '):
         return 'no index: ' + impl
     cols, coll, ini = parse_line_tables(o.case.line)
@@ -601,7 +778,7 @@ def oracle_idx(o):
     ntop = len(sibs.get('', []))
     if G.startswith('err'):
         return 'groups raised ' + G
-    flat, prev = [], None
+    flat, seen, prev_first = [], set(), -1
     for gw in G.split():
         title, label, colsw = gw.split('/')
         title = undots(title)
@@ -611,19 +788,27 @@ def oracle_idx(o):
         items = [x for c in columns for x in c]
         if not items:
             return 'empty group %r' % title
-        if title == prev:
-            return 'adjacent groups with the same heading %r' % title
-        prev = title
+        if title in seen:
+            return 'two groups with the same heading %r' % title
+        seen.add(title)
+        if any(items[i] >= items[i + 1] for i in range(len(items) - 1)):
+            return 'the columns of group %r do not keep the order of its entries: %s' % (title, items)
+        if items[0] < prev_first:
+            return 'groups are not ordered by their first entry'
+        prev_first = items[0]
         for x in items:
             i0 = ini[sibs[''][x]] if x < ntop else None
+            b0 = base_letter(undots(sibs[''][x])) if x < ntop else None
+            if b0 is not None and title != b0:
+                return 'entry with sort key %r (initial letter %r) under heading %r' % (undots(sibs[''][x]), b0, title)
             letter = i0 is not None and len(i0) == 1 and i0.isascii() and i0.isalpha()
             if letter and title != i0:
                 return 'entry with initial %r under heading %r' % (i0, title)
             if not letter and len(title) == 1 and title.isalpha():
                 return 'non-letter entry under letter heading %r' % title
         flat.extend(items)
-    if flat != list(range(ntop)):
-        return 'groups/columns are not an order-preserving partition of the top-level entries: %s' % flat
+    if sorted(flat) != list(range(ntop)):
+        return 'groups/columns are not a partition of the top-level entries: %s' % flat
     return ''
 
 
@@ -638,6 +823,15 @@ def judge(o):
             o.prop_ok = True
             return
         msg = oracle_idx(o)
+        o.prop_ok = (msg == '')
+        o.note = msg
+    elif st == 'html18':
+        dom, _, html = o.impl.partition(' ## ')
+        msg = oracle_idx(o, dom)
+        if not msg:
+            want = project_dom(dom, o.case.line)
+            if html != want:
+                msg = 'the generated HTML index differs from the index tree: generated %s expected %s' % (html[:300], want[:300])
         o.prop_ok = (msg == '')
         o.note = msg
     elif st == 'idxcols':
@@ -659,13 +853,13 @@ def judge(o):
 def _mk(o, es, cols):
     m = dict(o.case.meta)
     m['es'], m['cols'] = es, cols
-    if o.case.stream == 'doc18':
+    if o.case.stream in ('doc18', 'html18'):
         m['body'] = ' '.join('w\\index{%s%s}' % ('!'.join(l), f) for l, f in es)
     return Case(o.case.stream, entries_line(es, cols), m, 'shrink')
 
 
 def shrink(ctx, o, evaluate):
-    if o.case.stream not in ('idx', 'doc18'):
+    if o.case.stream not in ('idx', 'doc18', 'html18'):
         return o
     best = o
     improved = True
@@ -688,7 +882,7 @@ def search(ctx, evaluate, corr_bad):
     batch (longer entry lists, more repeats) against the Spec oracle"""
     rng = random.Random(ctx.seed * 7919 + 18)
     for o in corr_bad[:20]:
-        if o.case.stream in ('idx', 'doc18'):
+        if o.case.stream in ('idx', 'doc18', 'html18'):
             es, cols = o.case.meta['es'], o.case.meta['cols']
             cs = [_mk(o, es[:k], c) for k in range(1, len(es) + 1) for c in (1, 2, 3, 4)]
             bad = [r for r in evaluate(cs) if not r.prop_ok]
@@ -705,6 +899,10 @@ def search(ctx, evaluate, corr_bad):
         es = gen_entries(rng, rng.randint(1, 16))
         cols = rng.randint(1, 4)
         cases.append(Case('doc18', entries_line(es, cols), {'es': es, 'cols': cols, 'body': gen_doc_body(rng, es)}, 'search'))
+    for _ in range(150):
+        es = gen_entries(rng, rng.randint(2, 16)) + [([rng.choice(POOL), rng.choice(POOL), rng.choice(POOL)], '')]
+        cols = rng.randint(1, 4)
+        cases.append(Case('html18', entries_line(es, cols), {'es': es, 'cols': cols, 'body': gen_doc_body(rng, es)}, 'search'))
     for _ in range(3000):
         cols = rng.randint(1, 6)
         cases.append(Case('idxcols', ' '.join([str(cols)] + [str(rng.choice([1, 1, 2, 3, 7])) for _ in range(rng.randint(0, 14))]), None, 'search'))
